@@ -13,12 +13,14 @@ from contracts import dumpers as DM, natives as N
 TRUSTED = ['T1 pyvc model of Python (DESIGN 3)', 'T13 text-mode tell() after writes = bytes written (utf-8, newline=\'\'); '
            'hashlib.md5 is a function of the bytes', 'T4 Resource.source is the descriptor path; Resource.descriptor is a private copy',
            'T16 z3 / cvc5']
-ASSUMPTIONS = ['FileDumper.hash_handler (chunked md5 over the temp file) is checked only by the bounded dump-statistics test']
+ASSUMPTIONS = ['hash_handler: that consecutive read(1024) results concatenate to the file content is the file-object contract (T13), not proved']
 ITEMS = [
     Item('DumperBase.attr-helpers', DM.sym_attr_helpers, [('differential', DM.nat_attr_helpers)], DM.D + 'dumper_base.py::DumperBase.set_attr'),
     Item('DumperBase.row_counter', DM.sym_row_counter, [], DM.D + 'dumper_base.py::DumperBase.row_counter'),
     Item('FileDumper.rows_processor', DM.sym_rows_processor, [], DM.D + 'file_dumper.py::FileDumper.rows_processor'),
+    Item('FileDumper.hash_handler', DM.sym_hash_handler, [], DM.D + 'file_dumper.py::FileDumper.hash_handler'),
     Item('FileDumper.handle_datapackage', DM.sym_handle_datapackage, [], DM.D + 'file_dumper.py::FileDumper.handle_datapackage'),
     Item('PathDumper.write_file_to_output', DM.sym_write_file_to_output, [], DM.D + 'to_path.py::PathDumper.write_file_to_output'),
+    Item('ZipDumper', DM.sym_zip_dumper, [], DM.D + 'to_zip.py::ZipDumper.write_file_to_output'),
     Item('dumps', None, [('statistics', N.nat_dump_stats)], None),
 ]
